@@ -264,8 +264,13 @@ Definition hand_decls (v : view) : list (string * hfile * hdecl) :=
 Definition gen_decls (v : view) : list adecl :=
   flat_map (fun f => match snd f with FGen a => a_decls a | FHand _ => [] end) v.
 
-Definition find_struct (v : view) (T : string) : option (string * hfile * sstruct) :=
-  match find (fun x => match x with (_, _, HStruct s) => ss_name s =? T | _ => false end) (hand_decls v) with
+(* what the analyses read of the loaded package: the declarations of the hand-written files and the
+   declarations of the generated files, each in package (file name) order *)
+Record pview := { pv_hand : list (string * hfile * hdecl); pv_gen : list adecl }.
+Definition pview_of (v : view) : pview := {| pv_hand := hand_decls v; pv_gen := gen_decls v |}.
+
+Definition find_struct (v : pview) (T : string) : option (string * hfile * sstruct) :=
+  match find (fun x => match x with (_, _, HStruct s) => ss_name s =? T | _ => false end) (pv_hand v) with
   | Some (fn, h, HStruct s) => Some (fn, h, s)
   | _ => None
   end.
@@ -300,14 +305,14 @@ Definition get_go_file (o : oracle) (v : view) (T : string) : string :=
 
 (* ---- generated accessor interfaces read back from the package (getsetiface.go) ---- *)
 
-Definition find_iface (v : view) (n : string) : option (list string * list (string * string) * list (string * string)) :=
-  match find (fun d => (d_name d =? n) && match d_kind d with KIface _ _ _ => true | _ => false end) (gen_decls v) with
+Definition find_iface (v : pview) (n : string) : option (list string * list (string * string) * list (string * string)) :=
+  match find (fun d => (d_name d =? n) && match d_kind d with KIface _ _ _ => true | _ => false end) (pv_gen v) with
   | Some d => match d_kind d with KIface e g s => Some (e, g, s) | _ => None end
   | None => None
   end.
 
 (* the complete method set of interface n (own and embedded), as (name, type, is_setter) *)
-Fixpoint iface_methods (fuel : nat) (v : view) (n : string) : list (string * string * bool) :=
+Fixpoint iface_methods (fuel : nat) (v : pview) (n : string) : list (string * string * bool) :=
   match fuel with
   | O => []
   | S f =>
@@ -317,18 +322,31 @@ Fixpoint iface_methods (fuel : nat) (v : view) (n : string) : list (string * str
           flat_map (iface_methods f v) e ++ map (fun m => (fst m, snd m, false)) g ++ map (fun m => (fst m, snd m, true)) s
       end
   end.
-Definition view_fuel (v : view) : nat := S (List.length (gen_decls v)).
+Definition view_fuel (v : pview) : nat := S (List.length (pv_gen v)).
 
 (* methods with receiver T declared in generated files *)
-Definition methods_of (v : view) (T : string) : list string :=
+Definition methods_of (v : pview) (T : string) : list string :=
   flat_map (fun d => match d_kind d with
                      | KMethod r => if r =? T then [d_name d] else []
                      | _ => []
-                     end) (gen_decls v).
+                     end) (pv_gen v).
 
-(* AssignableToIface of T or its pointer type: every method of the interface is a method of T *)
-Definition assignable (v : view) (T iface : string) : bool :=
-  forallb (fun m => smem (T ++ "." ++ fst (fst m)) (methods_of v T)) (iface_methods (view_fuel v) v iface).
+(* the method names of *T: its own and those promoted from embedded structs *)
+Fixpoint method_set (fuel : nat) (v : pview) (T : string) : list string :=
+  match fuel with
+  | O => []
+  | S f =>
+      map (fun m => trim_prefix (T ++ ".") m) (methods_of v T) ++
+      match find_struct v T with
+      | Some (_, _, s) => flat_map (fun it => match it with IEmbed n _ _ => method_set f v n | IField _ => [] end) (ss_items s)
+      | None => []
+      end
+  end.
+
+(* AssignableToIface of T or its pointer type: every method of the interface is in the method set *)
+Definition assignable (v : pview) (T iface : string) : bool :=
+  let ms := method_set (S (List.length (pv_hand v))) v T in
+  forallb (fun m : string * string * bool => smem (fst (fst m)) ms) (iface_methods (view_fuel v) v iface).
 
 (* ------------------------------------------------------------------ *)
 (* the command line                                                    *)
@@ -383,6 +401,25 @@ Inductive mres (D S : Type) :=
 | MFatal.                                 (* logx.Fatal: exit 1, nothing written *)
 Arguments MOk {D S}. Arguments MSkip {D S}. Arguments MFatal {D S}.
 
+(* The per-type resets of the long-lived generator objects, one switch per statement of the Go code.
+   The code performs all of them ([all_resets]); the switches exist so that "this reset is needed" can be
+   stated: with a switch off the corresponding assignment is skipped and the old value flows in. *)
+Record resets := {
+  rs_hasnew : bool;      (* constructor/generator.go MakeData: g.hasNew = false *)
+  rs_gsm : bool;         (* g.getsetMethods = nil *)
+  rs_getset : bool;      (* g.getter = true; g.setter = true *)
+  rs_mfields : bool;     (* mapper/fields.go parseSrcFields / parseDestFields: exported/unexported field lists = nil *)
+  rs_mtags : bool;       (* g.srcTagMap = make(...) *)
+  rs_mctor : bool;       (* mapper/ctor.go parseCtors: g.srcCtorParams = nil; g.destCtorParams = nil *)
+  rs_mmeth : bool;       (* mapper/methods.go parseMethods: g.getsetMethods = nil; g.destGetSetMethods = nil *)
+  rs_msets : bool;       (* mapper/manual.go parseManual: writeSrcSet / writeDestSet = MakeSet() *)
+  rs_mmaps : bool;       (* mapper/mismatch.go makeTypeMismatch: writeSrcMap / readSrcMap = make(...) *)
+  rs_mfuncs : bool       (* mapper/generator.go loadMorePkgs: g.mappingFuncList = nil *)
+}.
+Definition all_resets : resets :=
+  {| rs_hasnew := true; rs_gsm := true; rs_getset := true; rs_mfields := true; rs_mtags := true; rs_mctor := true;
+     rs_mmeth := true; rs_msets := true; rs_mmaps := true; rs_mfuncs := true |}.
+
 (* ------------------------------------------------------------------ *)
 (* `new`                                                               *)
 
@@ -403,7 +440,7 @@ Definition check_shadow_append (fs : list fent) (f : fent) : list fent :=
 
 (* fields.go expandIfStruct / extractStructFields (below the top level everything comes from go/types:
    no directives, no tags, no filters) *)
-Fixpoint expand (fuel : nat) (v : view) (depth : nat) (tname : string) (ptr isnew : bool) (acc : list fent) : list fent :=
+Fixpoint expand (fuel : nat) (v : pview) (depth : nat) (tname : string) (ptr isnew : bool) (acc : list fent) : list fent :=
   match fuel with
   | O => acc
   | S fu =>
@@ -433,7 +470,7 @@ Definition parse_getset (f : sfield) : bool * bool :=
        else (true, true).
 
 (* fields.go extractTopFiels *)
-Definition extract_top (fuel : nat) (c : cmd) (v : view) (s : sstruct) : list fent :=
+Definition extract_top (fuel : nat) (c : cmd) (v : pview) (s : sstruct) : list fent :=
   fold_left (fun a it =>
                match it with
                | IEmbed n p dn => expand fuel v 0 n p dn a
@@ -516,7 +553,7 @@ Fixpoint new_body (fuel : nat) (fs : list fent) (depth : option nat) (nm : list 
   end.
 
 (* getset.go makeGetSet: returns (getList, setList, getIfaces, setIfaces, appended getsetMethods) *)
-Fixpoint make_getset_loop (v : view) (getter setter : bool) (fs : list fent) (once : list string)
+Fixpoint make_getset_loop (v : pview) (getter setter : bool) (fs : list fent) (once : list string)
   : list string * list string * list string * list string * list (string * bool) :=
   match fs with
   | [] => ([], [], [], [], [])
@@ -544,25 +581,29 @@ Fixpoint make_getset_loop (v : view) (getter setter : bool) (fs : list fent) (on
            ((if fe_set f && setter then [fe_name f] else []) ++ sl)%list, gi, si, ms)
   end.
 
-(* constructor.Generator.MakeData, statement by statement *)
-Definition new_make (c : cmd) (st : nstate) (v : view) (T : string) : mres ndata nstate :=
-  (* g.getter = true; g.setter = true; g.hasNew = false; g.getsetMethods = nil; g.data = NewTmplData(...) *)
-  let st1 := {| n_data := ndata0 (c_line c); n_tparams := n_tparams st; n_tpmap := n_tpmap st; n_fields := n_fields st;
-                n_hasNew := false; n_gsm := []; n_getter := true; n_setter := true |} in
-  (* parseFields *)
-  match find_struct v T with
-  | None => MFatal                                 (* logx.Fatalf("type not exists") *)
-  | Some (_, h, s) =>
-      let getter := if c_getset c && ss_hasdoc s
-                    then (if Bool.eqb (ss_dgetter s) (ss_dsetter s) then true else ss_dgetter s) else n_getter st1 in
-      let setter := if c_getset c && ss_hasdoc s
-                    then (if Bool.eqb (ss_dgetter s) (ss_dsetter s) then true else ss_dsetter s) else n_setter st1 in
-      let hasNew := n_hasNew st1 || existsb item_new (ss_items s) in
-      let fields := extract_top (S (List.length (hand_decls v))) c v s in
-      let st2 := {| n_data := n_data st1; n_tparams := map snd (ss_tparams s); n_tpmap := map fst (ss_tparams s);
-                    n_fields := fields; n_hasNew := hasNew; n_gsm := n_gsm st1; n_getter := getter; n_setter := setter |} in
-      (* makeGetSet *)
-      let '(gl, sl, gi, si, ms) := make_getset_loop v (n_getter st2) (n_setter st2) (n_fields st2) [] in
+(* constructor.Generator.MakeData, statement by statement.
+   new_reset: g.getter = true; g.setter = true; g.hasNew = false; g.getsetMethods = nil; g.data = NewTmplData(...) *)
+Definition new_reset (rs : resets) (c : cmd) (st : nstate) : nstate :=
+  {| n_data := ndata0 (c_line c); n_tparams := n_tparams st; n_tpmap := n_tpmap st; n_fields := n_fields st;
+     n_hasNew := if rs_hasnew rs then false else n_hasNew st;
+     n_gsm := if rs_gsm rs then [] else n_gsm st;
+     n_getter := if rs_getset rs then true else n_getter st;
+     n_setter := if rs_getset rs then true else n_setter st |}.
+
+(* parseFields, the part that reads the declaration of T only: type-level directive, shoot:new marks, type parameters *)
+Definition new_parse (c : cmd) (st1 : nstate) (s : sstruct) (fields : list fent) : nstate :=
+  let getter := if c_getset c && ss_hasdoc s
+                then (if Bool.eqb (ss_dgetter s) (ss_dsetter s) then true else ss_dgetter s) else n_getter st1 in
+  let setter := if c_getset c && ss_hasdoc s
+                then (if Bool.eqb (ss_dgetter s) (ss_dsetter s) then true else ss_dsetter s) else n_setter st1 in
+  let hasNew := n_hasNew st1 || existsb item_new (ss_items s) in
+  {| n_data := n_data st1; n_tparams := map snd (ss_tparams s); n_tpmap := map fst (ss_tparams s);
+     n_fields := fields; n_hasNew := hasNew; n_gsm := n_gsm st1; n_getter := getter; n_setter := setter |}.
+
+(* makeGetSet (result gs of its loop), makeNew, makeJson *)
+Definition new_finish (c : cmd) (st2 : nstate) (h : hfile) (T : string)
+  (gs : list string * list string * list string * list string * list (string * bool)) : mres ndata nstate :=
+      let '(gl, sl, gi, si, ms) := gs in
       let st3 := {| n_data := n_data st2; n_tparams := n_tparams st2; n_tpmap := n_tpmap st2; n_fields := n_fields st2;
                     n_hasNew := n_hasNew st2; n_gsm := n_gsm st2 ++ ms; n_getter := n_getter st2; n_setter := n_setter st2 |} in
       (* makeNew *)
@@ -603,8 +644,18 @@ Definition new_make (c : cmd) (st : nstate) (v : view) (T : string) : mres ndata
                   nd_exported := if c_json c then map fe_name (filter (fun f => is_exported (fe_name f)) plain) else [] |} in
       let st4 := {| n_data := d; n_tparams := n_tparams st3; n_tpmap := n_tpmap st3; n_fields := n_fields st3;
                     n_hasNew := n_hasNew st3; n_gsm := n_gsm st3; n_getter := n_getter st3; n_setter := n_setter st3 |} in
-      MOk d (nd_getset d) st4
+      MOk d (nd_getset d) st4.
+
+Definition new_make_gen (rs : resets) (c : cmd) (st : nstate) (v : pview) (T : string) : mres ndata nstate :=
+  let st1 := new_reset rs c st in
+  match find_struct v T with
+  | None => MFatal                                 (* logx.Fatalf("type not exists") *)
+  | Some (_, h, s) =>
+      let st2 := new_parse c st1 s (extract_top (S (List.length (pv_hand v))) c v s) in
+      new_finish c st2 h T (make_getset_loop v (n_getter st2) (n_setter st2) (n_fields st2) [])
   end.
+
+Definition new_make := new_make_gen all_resets.
 
 Definition tyof (d : ndata) (f : string) : string :=
   match alookup f (nd_typemap d) with Some t => t | None => "" end.
@@ -621,7 +672,7 @@ Definition new_render (d : ndata) : afile :=
                                                      | None => []
                                                      end) (nd_all d));
                  d_doc := true; d_tail := false;
-                 d_needs := flat_map (fun f => uses (tyof d f)) (nd_all d);
+                 d_needs := flat_map (fun f => if ahas f (nd_newmap d) then uses (tyof d f) else []) (nd_all d);
                  d_toks := [nd_tplist d; nd_params d; nd_body d] |} in
   let opt : list adecl := if nd_option d then
                [{| d_name := T ++ ".With"; d_kind := KMethod T; d_doc := true; d_tail := false;
@@ -693,14 +744,14 @@ Definition estate0 : estate :=
      e_valueof := []; e_strof := [] |}.
 
 (* str.go makeStr: typed constants of T from every file, sorted by value *)
-Definition enum_values (v : view) (T : string) : list (string * Z) :=
+Definition enum_values (v : pview) (T : string) : list (string * Z) :=
   isort (fun a b => Z.leb (snd a) (snd b))
         (flat_map (fun x => match x with
                             | (_, _, HConsts ty cs) => if ty =? T then cs else []
                             | _ => []
-                            end) (hand_decls v)).
+                            end) (pv_hand v)).
 
-Definition enum_make (c : cmd) (st : estate) (v : view) (T : string) : mres edata estate :=
+Definition enum_make (c : cmd) (st : estate) (v : pview) (T : string) : mres edata estate :=
   let vals := enum_values v T in
   let d := {| ed_cmd := c_line c; ed_type := T; ed_names := map fst vals; ed_json := c_ejson c; ed_text := c_etext c |} in
   let st1 := {| e_data := d;
@@ -769,8 +820,8 @@ Definition default_headers : list (string * list (string * string)) :=
     ("DELETE", []) ].
 Definition body_verb (vb : string) : bool := smem vb ["POST"; "PUT"; "PATCH"].
 
-Definition find_iface_decl (v : view) (T : string) : option (string * hfile * riface) :=
-  match find (fun x => match x with (_, _, HIface r) => ri_name r =? T | _ => false end) (hand_decls v) with
+Definition find_iface_decl (v : pview) (T : string) : option (string * hfile * riface) :=
+  match find (fun x => match x with (_, _, HIface r) => ri_name r =? T | _ => false end) (pv_hand v) with
   | Some (fn, h, HIface r) => Some (fn, h, r)
   | _ => None
   end.
@@ -834,7 +885,7 @@ Definition rest_method (o : oracle) (h : hfile) (m : rmethod) : option rmdata :=
               md_errret := if rm_result m =? "" then "nil, err" else "nil, nil, err" |}
   end.
 
-Definition rest_make (o : oracle) (c : cmd) (st : rstate) (v : view) (T : string) : mres rdata rstate :=
+Definition rest_make (o : oracle) (c : cmd) (st : rstate) (v : pview) (T : string) : mres rdata rstate :=
   match find_iface_decl v T with
   | None => MFatal                          (* rest client interface not exists *)
   | Some (_, h, r) =>
@@ -937,7 +988,7 @@ Definition append_or_replace (fs : list mfield) (f : mfield) : list mfield :=
 Definition sty (f : sfield) : string := (if sf_ptr f then "*" else "") ++ sf_ty f.
 
 (* fields.go expandIfStruct / extractStructFields; acc = (fields, ptrTypeMap) *)
-Fixpoint mexpand (fuel : nat) (v : view) (qual : string) (pre : list string) (depth : nat) (tname : string) (ptr : bool)
+Fixpoint mexpand (fuel : nat) (v : pview) (qual : string) (pre : list string) (depth : nat) (tname : string) (ptr : bool)
   (acc : list mfield * list (string * string)) : list mfield * list (string * string) :=
   match fuel with
   | O => acc
@@ -955,7 +1006,7 @@ Fixpoint mexpand (fuel : nat) (v : view) (qual : string) (pre : list string) (de
   end.
 
 (* fields.go parseFields: (exported, unexported, tagMap, ptrTypeMap) of type T in view v; None = no such struct *)
-Definition mparse_fields (v : view) (qual : string) (T : string) (with_tags : bool)
+Definition mparse_fields (v : pview) (qual : string) (T : string) (with_tags : bool) (tags0 : list (string * string))
   : option (list mfield * list mfield * list (string * string) * list (string * string)) :=
   match find_struct v T with
   | None => None
@@ -965,7 +1016,7 @@ Definition mparse_fields (v : view) (qual : string) (T : string) (with_tags : bo
                      let '(fs, tags, ptrs) := a in
                      match it with
                      | IEmbed n p _ =>
-                         let '(fs', ptrs') := mexpand (S (List.length (hand_decls v))) v qual [n] 1 n p (fs, ptrs) in
+                         let '(fs', ptrs') := mexpand (S (List.length (pv_hand v))) v qual [n] 1 n p (fs, ptrs) in
                          (fs', tags, ptrs')
                      | IField f =>
                          if sf_maptag f =? "-" then a
@@ -973,7 +1024,7 @@ Definition mparse_fields (v : view) (qual : string) (T : string) (with_tags : bo
                            let tags' := if negb (sf_maptag f =? "") && with_tags
                                         then upsert (pascal (sf_name f)) (pascal (sf_maptag f)) tags else tags in
                            (append_or_replace fs (mf0 (sf_name f) [sf_name f] (sty f) 0), tags', ptrs)
-                     end) (ss_items s) ([], [], []) in
+                     end) (ss_items s) ([], tags0, []) in
       Some (filter (fun f => is_exported (m_name f)) fs, filter (fun f => negb (is_exported (m_name f))) fs, tags, ptrs)
   end.
 
@@ -1032,9 +1083,9 @@ Definition can_name_match (f1 f2 : mfield) (tags : list (string * string)) : boo
     Nat.eqb (String.length m1) (String.length m2) && ((m1 =? m2) || (camel m1 =? camel m2)).
 
 (* ctor.go parseCtors: the parameters of the generated NewT *)
-Definition has_shootnew (v : view) (T : string) : bool := smem (T ++ ".ShootNew") (methods_of v T).
-Definition parse_ctors (v : view) (T : string) : list mfield :=
-  match find (fun d => d_name d =? "New" ++ T) (gen_decls v) with
+Definition has_shootnew (v : pview) (T : string) : bool := smem (T ++ ".ShootNew") (methods_of v T).
+Definition parse_ctors (v : pview) (T : string) : list mfield :=
+  match find (fun d => d_name d =? "New" ++ T) (pv_gen v) with
   | Some d => match d_kind d with
               | KCtor ps => map (fun p => match p with
                                           | (_, ty, field, path) =>
@@ -1049,7 +1100,7 @@ Definition parse_ctors (v : view) (T : string) : list mfield :=
   end.
 
 (* getsetiface.go ParseGetSetIface *)
-Definition parse_getset_iface (v : view) (T : string) : list (string * string * bool) :=
+Definition parse_getset_iface (v : pview) (T : string) : list (string * string * bool) :=
   let g := T ++ "Getter" in
   let s := T ++ "Setter" in
   (if match find_iface v g with Some _ => assignable v T g | None => false end
@@ -1208,10 +1259,12 @@ Definition nil_check_write (o : oracle) (fs : list mfield) (sel : mfield -> bool
   (m, sort_strings l).
 
 (* mapper.Generator.MakeData, statement by statement.  hw-side view [v], destination package view [dv] *)
-Definition map_make (o : oracle) (c : cmd) (destpkg : string) (dv : view) (st : mstate) (v : view) (T : string) : mres mdata mstate :=
+Definition map_make_gen (rs : resets) (o : oracle) (c : cmd) (destpkg : string) (dv : pview) (st : mstate) (v : pview) (T : string)
+  : mres mdata mstate :=
   let qual := destpkg ++ "." in
-  (* loadMorePkgs: g.mappingFuncList = nil; an embedded empty struct of the package with methods is the mapper *)
-  let funcs0 : list (string * string * string) := [] in
+  (* loadMorePkgs: g.mappingFuncList = nil; an embedded empty struct of the package with methods is the mapper:
+     parseMapper then assigns g.mappingFuncList *)
+  let funcs0 : list (string * string * string) := if rs_mfuncs rs then [] else ms_funcs st in
   let funcs := match find_struct v T with
                | Some (_, _, s) =>
                    fold_left (fun a it => match it with
@@ -1222,7 +1275,7 @@ Definition map_make (o : oracle) (c : cmd) (destpkg : string) (dv : view) (st : 
                                                   | [] => flat_map (fun x => match x with
                                                                              | (_, _, HFuncs r fs) => if r =? n then fs else []
                                                                              | _ => []
-                                                                             end) (hand_decls v)
+                                                                             end) (pv_hand v)
                                                   | _ => a
                                                   end
                                               | None => a
@@ -1231,28 +1284,34 @@ Definition map_make (o : oracle) (c : cmd) (destpkg : string) (dv : view) (st : 
                                           end) (ss_items s) funcs0
                | None => funcs0
                end in
-  (* parseSrcFields: exportedFields = nil; unexportedFields = nil; srcTagMap = {}; srcPtrTypeMap = {} *)
-  match mparse_fields v "" T true with
+  (* parseSrcFields: g.exportedFields = nil; g.unexportedFields = nil; g.srcTagMap = {}; parseFields appends *)
+  match mparse_fields v "" T true (if rs_mtags rs then [] else ms_tags st) with
   | None => MFatal                                (* src type not exists *)
-  | Some (exp, unexp, tags, sptr) =>
+  | Some (exp_, unexp_, tags, sptr) =>
+      let exp := (if rs_mfields rs then [] else ms_exp st) +++ exp_ in
+      let unexp := (if rs_mfields rs then [] else ms_unexp st) +++ unexp_ in
       (* parseDestFields *)
-      match mparse_fields dv qual T false with
+      match mparse_fields dv qual T false [] with
       | None => if specified c then MFatal else
-                  MSkip {| ms_data := None; ms_exp := exp; ms_unexp := unexp; ms_dexp := []; ms_dunexp := [];
+                  MSkip {| ms_data := None; ms_exp := exp; ms_unexp := unexp;
+                           ms_dexp := if rs_mfields rs then [] else ms_dexp st;
+                           ms_dunexp := if rs_mfields rs then [] else ms_dunexp st;
                            ms_gsm := ms_gsm st; ms_dgsm := ms_dgsm st; ms_sptr := sptr; ms_dptr := [];
                            ms_spaths := ms_spaths st; ms_dpaths := ms_dpaths st; ms_funcs := funcs;
                            ms_wsrc := ms_wsrc st; ms_wdest := ms_wdest st; ms_rsm := ms_rsm st; ms_wsm := ms_wsm st;
                            ms_tags := tags; ms_sctor := ms_sctor st; ms_dctor := ms_dctor st |}
-      | Some (dexp, dunexp, _, dptr) =>
-          (* parseCtors: g.srcCtorParams = nil; g.destCtorParams = nil; ... *)
-          let sctor := if has_shootnew v T then parse_ctors v T else [] in
-          let dctor := if has_shootnew dv T then parse_ctors dv T else [] in
-          (* parseMethods: g.getsetMethods = nil; g.destGetSetMethods = nil; ... *)
-          let gsm := if has_shootnew v T then parse_getset_iface v T else [] in
-          let dgsm := if has_shootnew dv T then parse_getset_iface dv T else [] in
+      | Some (dexp_, dunexp_, _, dptr) =>
+          let dexp := (if rs_mfields rs then [] else ms_dexp st) +++ dexp_ in
+          let dunexp := (if rs_mfields rs then [] else ms_dunexp st) +++ dunexp_ in
+          (* parseCtors: g.srcCtorParams = nil; g.destCtorParams = nil; assigned only for shoot-new types *)
+          let sctor := if has_shootnew v T then parse_ctors v T else if rs_mctor rs then [] else ms_sctor st in
+          let dctor := if has_shootnew dv T then parse_ctors dv T else if rs_mctor rs then [] else ms_dctor st in
+          (* parseMethods: g.getsetMethods = nil; g.destGetSetMethods = nil; assigned only for shoot-new types *)
+          let gsm := if has_shootnew v T then parse_getset_iface v T else if rs_mmeth rs then [] else ms_gsm st in
+          let dgsm := if has_shootnew dv T then parse_getset_iface dv T else if rs_mmeth rs then [] else ms_dgsm st in
           (* parseManual: g.writeSrcSet = {}; g.writeDestSet = {} (no manual methods in this grammar) *)
-          let wsrc0 : list string := [] in
-          let wdest0 : list string := [] in
+          let wsrc0 : list string := if rs_msets rs then [] else ms_wsrc st in
+          let wdest0 : list string := if rs_msets rs then [] else ms_wdest st in
           (* makeCompatible *)
           let exp1 := compatlize exp gsm in
           let dexp1 := compatlize dexp dgsm in
@@ -1260,13 +1319,14 @@ Definition map_make (o : oracle) (c : cmd) (destpkg : string) (dv : view) (st : 
           let '(dctor1, wdest1, dnz) := ctor_match exp1 dctor tags qual funcs wdest0 in
           let '(sctor1, wsrc1, snz) := ctor_match dexp1 sctor [] "" funcs wsrc0 in
           (* makeTypeMismatch: g.writeSrcMap = {}; g.readSrcMap = {}; then makeTypeMatch *)
-          let ps0 : pstate := (exp1, dexp1, wsrc1, wdest1, [], []) in
+          let ps0 : pstate := (exp1, dexp1, wsrc1, wdest1,
+                               (if rs_mmaps rs then [] else ms_rsm st), (if rs_mmaps rs then [] else ms_wsm st)) in
           let ps1 := for_pairs tags (func_map funcs) ps0 in
-          let '(Sf, Df, ws, wd, rs, wm) := for_pairs tags (type_match_pair qual) ps1 in
-          (* makeReadCond / nilCheckRead / nilCheckWrite *)
+          let '(Sf, Df, ws, wd, rsm, wm) := for_pairs tags (type_match_pair qual) ps1 in
+          (* makeReadCond: g.srcPathsMap = {}; g.destPathsMap = {} / nilCheckRead / nilCheckWrite *)
           let spaths := prepare_read_paths Sf sptr in
           let dpaths := prepare_read_paths Df dptr in
-          let srcread := fold_left (fun m f => match alookup (m_name f) rs with
+          let srcread := fold_left (fun m f => match alookup (m_name f) rsm with
                                                | Some d => if ahas (m_name f) spaths then upsert (m_name f) d m else m
                                                | None => m
                                                end) Sf [] in
@@ -1275,7 +1335,7 @@ Definition map_make (o : oracle) (c : cmd) (destpkg : string) (dv : view) (st : 
                                                 | None => m
                                                 end) Sf [] in
           let '(sptrmap, sptrlist) := nil_check_write o Sf (fun f => ahas (m_name f) wm) sptr in
-          let '(dptrmap, dptrlist) := nil_check_write o Df (fun f => existsb (fun e => snd e =? m_name f) rs) dptr in
+          let '(dptrmap, dptrlist) := nil_check_write o Df (fun f => existsb (fun e => snd e =? m_name f) rsm) dptr in
           let d := {| md_cmd := c_line c; md_type := T; md_dest := T; md_qdest := qual ++ T; md_destpkg := destpkg;
                       md_toonly := c_toonly c; md_fromonly := c_fromonly c;
                       md_srcctor := if snz then sctor1 else []; md_destctor := if dnz then dctor1 else [];
@@ -1285,9 +1345,10 @@ Definition map_make (o : oracle) (c : cmd) (destpkg : string) (dv : view) (st : 
           MOk d false
             {| ms_data := Some d; ms_exp := Sf; ms_unexp := unexp; ms_dexp := Df; ms_dunexp := dunexp; ms_gsm := gsm; ms_dgsm := dgsm;
                ms_sptr := sptr; ms_dptr := dptr; ms_spaths := spaths; ms_dpaths := dpaths; ms_funcs := funcs;
-               ms_wsrc := ws; ms_wdest := wd; ms_rsm := rs; ms_wsm := wm; ms_tags := tags; ms_sctor := sctor1; ms_dctor := dctor1 |}
+               ms_wsrc := ws; ms_wdest := wd; ms_rsm := rsm; ms_wsm := wm; ms_tags := tags; ms_sctor := sctor1; ms_dctor := dctor1 |}
       end
   end.
+Definition map_make := map_make_gen all_resets.
 
 (* mapper.tmpl; condofread reads g.srcPathsMap / g.destPathsMap when the template runs *)
 Definition map_render (st : mstate) (d : mdata) : afile :=
@@ -1350,7 +1411,7 @@ Definition map_render (st : mstate) (d : mdata) : afile :=
 
 Section Loop.
   Context {St Data : Type}.
-  Variable make : St -> view -> string -> mres Data St.
+  Variable make : St -> pview -> string -> mres Data St.
   Variable render : St -> Data -> afile.          (* runs on the state MakeData left behind *)
   Variable list_types : view -> list string.      (* ListTypes of the generator, without the -file filter *)
   Variable c : cmd.
@@ -1378,7 +1439,7 @@ Section Loop.
     | [] => Some (srcmap, srclist, overlay, st)
     | T :: rest =>
         let v := mk_view hw disk overlay in
-        match make st v T with
+        match make st (pview_of v) T with
         | MFatal => None
         | MSkip st' => gen_loop rest fmap st' overlay srcmap srclist
         | MOk d stale st' =>
@@ -1445,7 +1506,7 @@ Definition run_generate (o : oracle) (p : pkg) (prior : gfiles) (c : cmd) : opti
   | CNew => generate (new_make c) (fun _ d => new_render d) (list_types_of CNew) c o (p_hw p) disk nstate0
   | CEnum => generate (enum_make c) enum_render (list_types_of CEnum) c o (p_hw p) disk estate0
   | CRest => generate (rest_make o c) (fun _ d => rest_render d) (list_types_of CRest) c o (p_hw p) disk rstate0
-  | CMap => generate (map_make o c (p_destname p) (mk_view (p_dest p) (p_destaux p) [])) map_render
+  | CMap => generate (map_make o c (p_destname p) (pview_of (mk_view (p_dest p) (p_destaux p) []))) map_render
                      (list_types_of CMap) c o (p_hw p) disk mstate0
   end.
 
